@@ -257,7 +257,10 @@ func (e *Enc) appendOp(fr *Frame, cc *ssa.CallCommon, args []Val, st *State, rea
 		q := fmt.Sprintf("(forall ((j (_ BitVec 64))) (! (and "+
 			"(=> (and (bvsle (_ bv0 64) j) (bvslt j %[1]s)) (= (select %[2]s (bvadd %[3]s j)) (select (select %[4]s %[5]s) (bvadd %[6]s j)))) "+
 			"(=> (and (bvsle (_ bv0 64) j) (bvslt j %[7]s)) (= (select %[2]s (bvadd %[3]s (bvadd %[1]s j))) (select (select %[8]s %[9]s) (bvadd %[10]s j)))) "+
-			"(=> %[11]s (=> (or (bvslt j (bvadd %[6]s %[1]s)) (bvsge j (bvadd %[6]s %[12]s))) (= (select %[2]s j) (select (select %[4]s %[5]s) j))))"+
+			"(=> %[11]s (=> (or (bvslt j (bvadd %[6]s %[1]s)) (bvsge j (bvadd %[6]s %[12]s))) (= (select %[2]s j) (select (select %[4]s %[5]s) j)))) "+
+			// the same two facts with j as the absolute index of the result region (what E-matching on a goal term select(appd, x) needs)
+			"(=> (and (bvsle %[3]s j) (bvslt j (bvadd %[3]s %[1]s))) (= (select %[2]s j) (select (select %[4]s %[5]s) (bvadd %[6]s (bvsub j %[3]s))))) "+
+			"(=> (and (bvsle (bvadd %[3]s %[1]s) j) (bvslt j (bvadd %[3]s (bvadd %[1]s %[7]s)))) (= (select %[2]s j) (select (select %[8]s %[9]s) (bvadd %[10]s (bvsub j (bvadd %[3]s %[1]s))))))"+
 			") :pattern ((select %[2]s j))))",
 			s.sLen(), inner, off, m, s.sRef(), s.sOff(), t.sLen(), sm, t.sRef(), t.sOff(), fits, newLen)
 		// instantiate explicitly for the single-element case, which is by far the most common
